@@ -1,7 +1,8 @@
 (* Props/C18.v — property C18: read-only operations do not change scenarios or planning problems.
    Statements only; every proof is [exact <lemma of Proofs/ReadOnly.v>].
-   Model: Model/ReadOnly.v — state = stored data (attribute names of the trajectory states, goal-lanelet tables with
-   their container kind, lanelets, light cycles) + caches (occupancy sets, lanelet distances, spatial index, memoised
+   Model: Model/ReadOnly.v — state = stored data (attribute names and values of the trajectory states, the other data
+   of every obstacle, goal-lanelet tables with their container kind, lanelets, light cycles, the id sets of the
+   intersections) + caches (occupancy sets, lanelet distances, spatial index, memoised
    cycle times); [step repaired] = the code as it is; [observe] forgets the caches; [export] = what the writers read. *)
 From Coq Require Import ZArith List Bool.
 Import ListNotations.
@@ -44,8 +45,9 @@ Theorem C18_answer_after_run : forall ops q s, Inv s ->
   res_obs (snd (step repaired (run (step repaired) ops s) q)) = res_obs (snd (step repaired s q)).
 Proof. exact answer_after_run. Qed.
 
-(* non-vacuity: a sequence that fills an occupancy set, both distance caches and a light cycle's times and rebuilds the
-   spatial index — the state changes, the observation does not *)
+(* non-vacuity: a sequence that fills an occupancy set, both distance caches and a light cycle's times, rebuilds the
+   spatial index and draws with the intersections highlighted (the unions of their id sets are formed) — the state
+   changes, the observation does not *)
 Example C18_nonvacuous :
   run (step repaired) demo_ops demo <> demo /\
   observe (run (step repaired) demo_ops demo) = observe demo /\
@@ -54,8 +56,7 @@ Example C18_nonvacuous :
   n_lights (s_net (run (step repaired) demo_ops demo)) = [ Some {| c_durs := [3; 4]; c_off := 2; c_cum := Some [2; 5; 9] |} ] /\
   trace (step repaired) demo_ops demo =
     [RUnit; RUnit; RCum [2; 5; 9]; RCopy (run (step repaired) [OccsAt 1; LaneletQ 0; LightAt 0 5] demo);
-     RFile ([[]; [(1, [Position; Velocity; VelocityY])]], [[[]; [7]]]);
-     RFile ([[]; [(1, [Position; Velocity; VelocityY])]], [[[]; [7]]])].
+     RIds [7; 5; 3; 4; 9; 8; 6]; RFile demo_file; RFile demo_file].
 Proof. exact demo_run. Qed.
 Example C18_demo_inv : Inv demo.
 Proof. exact demo_inv. Qed.
@@ -64,10 +65,10 @@ Proof. exact demo_inv. Qed.
 Theorem C18_unrepaired_occupancy_refuted :
   observe (fst (step old_occ demo (OccSet 1))) <> observe demo /\
   observe (fst (step old_occ demo (OccsAt 1))) <> observe demo /\
-  observe (fst (step old_occ demo (Draw [1%nat] [] []))) <> observe demo /\
+  observe (fst (step old_occ demo (Draw false [1%nat] [] []))) <> observe demo /\
   export (fst (step old_occ demo (OccAt 1 1))) =
-    ([[]; [(1, [Position; Velocity; VelocityY; Orientation])]], [[[]; [7]]]) /\
-  export demo = ([[]; [(1, [Position; Velocity; VelocityY])]], [[[]; [7]]]).
+    ([(11, []); (12, [(1, [Position; Velocity; VelocityY; Orientation], 41)])], [[[]; [7]]], demo_inters) /\
+  export demo = demo_file.
 Proof. exact old_occ_refuted. Qed.
 Theorem C18_unrepaired_occupancy_changes_iff : forall sts, all_headed sts = true ->
   (fst (create_occ old_occ sts) = sts <-> forallb (has_attr Orientation) sts = true).
